@@ -41,7 +41,7 @@ theorem csrfCookieName_eq (E : Go.Ext) (opts : Go.CookieOpts) (sub : Str) :
 
 /-- the name of the CSRF cookie for a callback / start state, in terms of the Layer-A `stateSubstring` -/
 theorem GenerateCookieName_eq (E : Go.Ext) (cfg : Cfg) (state : Str) :
-    Gen.Tr.GenerateCookieName E ⟨cfg.cookieName, cfg.csrfPerRequest⟩ state
+    Gen.Tr.GenerateCookieName E { Name := cfg.cookieName, CSRFPerRequest := cfg.csrfPerRequest } state
       = .ok (if stateSubstring cfg state = [] then cfg.cookieName ++ "_csrf".toList
              else cfg.cookieName ++ '_' :: stateSubstring cfg state ++ "_csrf".toList) := by
   unfold Gen.Tr.GenerateCookieName stateSubstring
